@@ -134,6 +134,7 @@ class InlinePass(ir.passes.InPlacePass):
         self._used_node_names: set[str] = set()
         self._node_context: dict[ir.Node, CallStack] = {}
         self._inlined_functions: set[ir.OperatorIdentifier] = set()
+        self._criteria_verdicts: dict[ir.OperatorIdentifier, bool] = {}
 
     def _reset(self, model: ir.Model) -> None:
         self._functions = model.functions
@@ -143,6 +144,22 @@ class InlinePass(ir.passes.InPlacePass):
         self._used_node_names = set()
         self._node_context = {}
         self._inlined_functions = set()
+        self._criteria_verdicts = {}
+
+    def _should_inline(self, op_id: ir.OperatorIdentifier) -> bool:
+        """Evaluate the criteria once per function and run.
+
+        The pass rewrites the bodies of the functions it keeps, so a criteria that looks at
+        the body could otherwise change its verdict between two call sites of the same
+        function; the function would then be removed while calls to it remain.
+        """
+        if self.criteria is None:
+            return True
+        verdict = self._criteria_verdicts.get(op_id)
+        if verdict is None:
+            verdict = bool(self.criteria(self._functions[op_id]))
+            self._criteria_verdicts[op_id] = verdict
+        return verdict
 
     def requires(self, model: ir.Model) -> None:
         self._reset(model)
@@ -339,7 +356,7 @@ class InlinePass(ir.passes.InPlacePass):
         for node in graph:
             op_id = node.op_identifier()
             if op_id in self._functions:
-                if self.criteria is not None and not self.criteria(self._functions[op_id]):
+                if not self._should_inline(op_id):
                     continue
                 self._inlined_functions.add(op_id)
                 # If there are multiple calls to same function, we use a prefix to disambiguate
